@@ -154,7 +154,8 @@ def rule_prefix(F, R, maxlen):
     n = 0
     # token kinds: (invariant?, boundary?)  I- = invariant non-boundary, IB = invariant boundary (separator),
     # V- = variant non-boundary, VB = variant boundary (tree wildcard)
-    kinds = ["I-", "IB", "V-", "VB"]
+    # IC = invariant token that contains a boundary without being one (`{a/b}`, `<a/b:2>`): not a checkpoint
+    kinds = ["I-", "IB", "IC", "V-", "VB"]
     for length in range(0, maxlen + 1):
         for pattern in itertools.product(kinds, repeat=length):
             for rooted_first in ((False, True) if length and pattern[0] == "VB" else (False,)):
@@ -171,6 +172,7 @@ def rule_prefix(F, R, maxlen):
                     "token::Token::variance": variance,
                     "token::variance::invariant::text::Text::to_string": lambda I, a, fn, e: strip(strip(a[0]).fields["s"]),
                     "token::Token::is_boundary": lambda I, a, fn, e: strip(strip(a[0]).fields["kind"])[1] == "B",
+                    "token::Token::has_boundary": lambda I, a, fn, e: strip(strip(a[0]).fields["kind"])[1] in "BC",
                     "token::Token::boundary": lambda I, a, fn, e: some(Sym("boundary")) if strip(strip(a[0]).fields["kind"])[1] == "B" else none(),
                     "token::Token::has_root": lambda I, a, fn, e: Adt("query::When", "Always" if (rooted_first and strip(strip(a[0]).fields["i"]) == 0) else "Never", {}),
                 }
